@@ -14,6 +14,7 @@ import re
 from .. import cfg as cfgmod
 from ..loader import AnalysisError, unparse, call_name
 from ..dataflow import target_names
+from ..cfg import atomic_facts
 
 TECHNIQUE = ('static analysis: shape of the replacement predicate (control dependence of the replacement emission), '
              'single-pass structure, classification of all str.replace call sites in the package')
@@ -24,41 +25,336 @@ EXPLANATION = (
     'renaming bypasses the token-level utilities. Value equality after untokenize is not decided.')
 
 
-def token_loops(f):
-    """for-loops over a tokenize generator: target is a 5-tuple / name and iter derives from tokenize.*"""
+TOKENIZERS = ('tokenize', 'generate_tokens')
+
+
+def _defs(fnode, name):
+    """all expressions assigned to a local name in the function"""
     out = []
-    gens = set()
-    for n in ast.walk(f.node):
-        if isinstance(n, ast.Assign) and isinstance(n.value, ast.Call) and call_name(n.value) in ('tokenize', 'generate_tokens'):
-            gens.update(target_names(n.targets[0]))
-    for n in ast.walk(f.node):
-        if isinstance(n, ast.For) and isinstance(n.iter, ast.Name) and n.iter.id in gens:
-            out.append(n)
+    for n in ast.walk(fnode):
+        if isinstance(n, ast.Assign) and len(n.targets) == 1 and isinstance(n.targets[0], ast.Name) and n.targets[0].id == name:
+            out.append(n.value)
     return out
 
 
-def is_name_test(e, typevar):
-    return isinstance(e, ast.Compare) and len(e.ops) == 1 and isinstance(e.left, ast.Name) and e.left.id == typevar and (
+class Stream(object):
+    """a token stream over the text `src`; `pairs`: elements are (type, text) pairs instead of 5-tuples;
+    `impure`: reason why the stream may belong to another text (e.g. a cache keyed by a transformed string)"""
+
+    def __init__(self, src, pairs=False, impure=None):
+        self.src, self.pairs, self.impure = src, pairs, impure
+
+
+def stream_of(e, f, prog, depth=0):
+    """Stream when the expression denotes the token stream of a string, else None"""
+    if depth > 6 or e is None:
+        return None
+    if isinstance(e, ast.Call) and call_name(e) in TOKENIZERS and e.args:
+        rl = e.args[0]
+        if isinstance(rl, ast.Name):
+            ds = _defs(f.node, rl.id)
+            rl = ds[0] if len(ds) == 1 else rl
+        # BytesIO(<src>.encode('utf-8')).readline  /  StringIO(<src>).readline
+        if isinstance(rl, ast.Attribute) and rl.attr == 'readline' and isinstance(rl.value, ast.Call) and rl.value.args:
+            x = rl.value.args[0]
+            if isinstance(x, ast.Call) and isinstance(x.func, ast.Attribute) and x.func.attr == 'encode':
+                x = x.func.value
+            return Stream(unparse(x))
+        return Stream('?')
+    if isinstance(e, ast.Call) and isinstance(e.func, ast.Name) and e.func.id in ('list', 'tuple', 'iter') and len(e.args) == 1:
+        return stream_of(e.args[0], f, prog, depth + 1)
+    if isinstance(e, (ast.GeneratorExp, ast.ListComp)) and len(e.generators) == 1 and not e.generators[0].ifs:
+        # ((toknum, tokval) for toknum, tokval, _, _, _ in <stream>)
+        gen = e.generators[0]
+        inner = stream_of(gen.iter, f, prog, depth + 1)
+        tv = target_names(gen.target)
+        if inner is not None and not inner.pairs and isinstance(e.elt, ast.Tuple) and len(e.elt.elts) == 2 and len(tv) >= 2 and \
+                [unparse(x) for x in e.elt.elts] == tv[:2]:
+            return Stream(inner.src, True, inner.impure)
+        return None
+    if isinstance(e, ast.Name):
+        ds = _defs(f.node, e.id)
+        ss = [stream_of(d, f, prog, depth + 1) for d in ds]
+        if ds and all(x is not None for x in ss) and len({(x.src, x.pairs) for x in ss}) == 1:
+            imp = next((x.impure for x in ss if x.impure), None)
+            return Stream(ss[0].src, ss[0].pairs, imp)
+        return None
+    if isinstance(e, ast.Call) and isinstance(e.func, ast.Name):
+        h = prog.functions.get((f.module.rel, e.func.id))
+        if h is None or h is f or not e.args or not h.params():
+            return None
+        summ = helper_stream(h, prog, depth + 1)
+        if summ is None:
+            return None
+        return Stream(unparse(e.args[0]), summ.pairs, summ.impure)
+    return None
+
+
+def helper_stream(h, prog, depth=0):
+    """summary of a module-level helper whose every return is the token stream of its first parameter"""
+    p = h.params()[0]
+    rets = [r.value for r in ast.walk(h.node) if isinstance(r, ast.Return)]
+    if not rets or any(r is None for r in rets):
+        return None
+    out = None
+    for r in rets:
+        s_ = stream_of(r, h, prog, depth)
+        if s_ is None and isinstance(r, (ast.Subscript, ast.Call)):
+            # served from a module-level cache: cache[K] / cache.get(K)
+            cache, key = None, None
+            if isinstance(r, ast.Subscript) and isinstance(r.value, ast.Name):
+                cache, key = r.value.id, r.slice
+            elif isinstance(r, ast.Call) and isinstance(r.func, ast.Attribute) and r.func.attr == 'get' and \
+                    isinstance(r.func.value, ast.Name) and r.args:
+                cache, key = r.func.value.id, r.args[0]
+            if cache is None:
+                return None
+            stores = [n for n in ast.walk(h.node) if isinstance(n, ast.Assign) and isinstance(n.targets[0], ast.Subscript)
+                      and isinstance(n.targets[0].value, ast.Name) and n.targets[0].value.id == cache]
+            if not stores:
+                return None
+            vals = [stream_of(n.value, h, prog, depth) for n in stores]
+            if any(v is None for v in vals):
+                return None
+
+            def is_param(k):
+                if isinstance(k, ast.Name) and k.id != p:
+                    ds = _defs(h.node, k.id)
+                    return len(ds) == 1 and is_param(ds[0])
+                return isinstance(k, ast.Name) and k.id == p
+            keys = [key] + [n.targets[0].slice for n in stores]
+            s_ = Stream(vals[0].src, vals[0].pairs, vals[0].impure)
+            if not all(is_param(k) for k in keys):
+                s_.impure = 'the token stream is served from the cache `%s` under the key `%s`, which is not the text itself' % (
+                    cache, unparse(resolve_key(keys[0], h)))
+        if s_ is None or s_.src not in (p, '?'):
+            return None
+        if out is None:
+            out = s_
+        else:
+            if out.pairs != s_.pairs:
+                return None
+            out.impure = out.impure or s_.impure
+    return out
+
+
+def resolve_key(k, h):
+    if isinstance(k, ast.Name):
+        ds = _defs(h.node, k.id)
+        if len(ds) == 1:
+            return ds[0]
+    return k
+
+
+class TokNorm(ast.NodeTransformer):
+    """token accessors -> the names TOKTYPE / TOKVAL"""
+
+    def __init__(self, typevar=None, valvar=None, whole=None):
+        self.typevar, self.valvar, self.whole = typevar, valvar, whole
+
+    def visit_Name(self, node):
+        if node.id == self.typevar:
+            return ast.Name(id='TOKTYPE', ctx=node.ctx)
+        if node.id == self.valvar:
+            return ast.Name(id='TOKVAL', ctx=node.ctx)
+        return node
+
+    def visit_Subscript(self, node):
+        if self.whole and isinstance(node.value, ast.Name) and node.value.id == self.whole and isinstance(node.slice, ast.Constant):
+            if node.slice.value == 0:
+                return ast.Name(id='TOKTYPE', ctx=ast.Load())
+            if node.slice.value == 1:
+                return ast.Name(id='TOKVAL', ctx=ast.Load())
+        return self.generic_visit(node)
+
+    def visit_Attribute(self, node):
+        if self.whole and isinstance(node.value, ast.Name) and node.value.id == self.whole:
+            if node.attr in ('type', 'exact_type'):
+                return ast.Name(id='TOKTYPE', ctx=ast.Load())
+            if node.attr == 'string':
+                return ast.Name(id='TOKVAL', ctx=ast.Load())
+        return self.generic_visit(node)
+
+
+def _norm(e, tn):
+    import copy
+    return tn.visit(copy.deepcopy(e))
+
+
+class Site(object):
+    """one traversal of a token stream: emissions = [(normalised emitted expression, [(normalised test, outcome)], line)]"""
+
+    def __init__(self, node, stream, kind):
+        self.node, self.stream, self.kind = node, stream, kind
+        self.emissions = []
+        self.every_token = True
+        self.collector = None
+        self.filtered = False
+
+
+def token_sites(f, prog):
+    out = []
+    g = None
+    for n in ast.walk(f.node):
+        if isinstance(n, ast.For):
+            st = stream_of(n.iter, f, prog)
+            if st is None:
+                continue
+            tv = target_names(n.target)
+            if isinstance(n.target, ast.Name):
+                tn = TokNorm(whole=n.target.id)
+            elif len(tv) >= 2:
+                tn = TokNorm(typevar=tv[0], valvar=tv[1])
+            else:
+                raise AnalysisError('token loop of %s does not unpack the token tuple' % f.name)
+            site = Site(n, st, 'loop')
+            if g is None:
+                g = cfgmod.build(f)
+            hdr = [h for h in g.nodes if h.kind == 'for' and h.stmt is n][0]
+            inside = set(id(x) for x in ast.walk(n))
+            emit_nodes = []
+            for node in g.stmt_nodes():
+                if node.kind != 'stmt' or n not in node.loops:
+                    continue
+                for c in ast.walk(node.ast):
+                    if isinstance(c, ast.Call) and call_name(c) == 'append' and c.args and isinstance(c.func, ast.Attribute) \
+                            and isinstance(c.func.value, ast.Name):
+                        facts = []
+                        for test, outcome in g.conditions_at(node):
+                            if id(test) in inside:
+                                for txt, val, e in atomic_facts(test, outcome):
+                                    facts.append((_norm(e, tn), val))
+                        site.emissions.append((_norm(c.args[0], tn), facts, c.lineno))
+                        site.collector = c.func.value.id
+                        emit_nodes.append(node)
+            first = [b for b, lab in g.succ[hdr.id] if lab is True]
+            site.every_token = bool(emit_nodes) and all(g.must_pass(b, hdr, emit_nodes) or g.nodes[b] in emit_nodes for b in first)
+            site.nested = any(isinstance(x, (ast.For, ast.While)) for st_ in n.body for x in ast.walk(st_))
+            out.append(site)
+        elif isinstance(n, (ast.ListComp, ast.GeneratorExp)) and len(n.generators) == 1:
+            gen = n.generators[0]
+            st = stream_of(gen.iter, f, prog)
+            if st is None:
+                continue
+            # the pair-projection of a stream is itself a stream, not a site
+            if stream_of(n, f, prog) is not None:
+                continue
+            tv = target_names(gen.target)
+            if isinstance(gen.target, ast.Name):
+                tn = TokNorm(whole=gen.target.id)
+            elif len(tv) >= 2:
+                tn = TokNorm(typevar=tv[0], valvar=tv[1])
+            else:
+                raise AnalysisError('token comprehension of %s does not unpack the token tuple' % f.name)
+            site = Site(n, st, 'comp')
+            base = []
+            for cond in gen.ifs:
+                for txt, val, e in atomic_facts(cond, True):
+                    base.append((_norm(e, tn), val))
+            site.filtered = bool(gen.ifs)
+
+            def emit(e, facts):
+                if isinstance(e, ast.IfExp):
+                    emit(e.body, facts + [(_norm(x, tn), v) for _, v, x in atomic_facts(e.test, True)])
+                    emit(e.orelse, facts + [(_norm(x, tn), v) for _, v, x in atomic_facts(e.test, False)])
+                else:
+                    site.emissions.append((_norm(e, tn), facts, e.lineno))
+            emit(n.elt, base)
+            site.every_token = not gen.ifs
+            site.nested = False
+            par = getattr(n, '_parent', None)
+            if isinstance(par, ast.Assign) and isinstance(par.targets[0], ast.Name):
+                site.collector = par.targets[0].id
+            out.append(site)
+    return out
+
+
+def is_name_fact(e, val):
+    return val is True and isinstance(e, ast.Compare) and len(e.ops) == 1 and isinstance(e.left, ast.Name) and e.left.id == 'TOKTYPE' and (
         (isinstance(e.ops[0], (ast.Eq, ast.Is)) and unparse(e.comparators[0]).split('.')[-1] == 'NAME') or
         (isinstance(e.ops[0], ast.In) and isinstance(e.comparators[0], (ast.Tuple, ast.List, ast.Set)) and
          [unparse(x).split('.')[-1] for x in e.comparators[0].elts] == ['NAME']))
+
+
+def exact_fact(e, val, params):
+    """('==', param) / ('in', param) when the fact is an exact match of the token text against a parameter"""
+    if val is not True or not (isinstance(e, ast.Compare) and len(e.ops) == 1):
+        return None
+    l, r, op = e.left, e.comparators[0], e.ops[0]
+    if isinstance(op, ast.Eq):
+        for x, y in ((l, r), (r, l)):
+            if isinstance(x, ast.Name) and x.id == 'TOKVAL' and isinstance(y, ast.Name) and y.id in params:
+                return ('==', y.id)
+    if isinstance(op, ast.In) and isinstance(l, ast.Name) and l.id == 'TOKVAL' and isinstance(r, ast.Name) and r.id in params:
+        return ('in', r.id)
+    return None
+
+
+def untokenizes(e, f, prog, depth=0):
+    """the expression is untokenize(<collector>) possibly decoded / str()-ed, or a module helper doing just that;
+    returns the collector expression text"""
+    if depth > 5 or e is None:
+        return None
+    if isinstance(e, ast.Call) and call_name(e) == 'untokenize' and e.args:
+        return unparse(e.args[0])
+    if isinstance(e, ast.Call) and isinstance(e.func, ast.Attribute) and e.func.attr in ('decode', 'strip') :
+        return untokenizes(e.func.value, f, prog, depth + 1)
+    if isinstance(e, ast.Call) and isinstance(e.func, ast.Name) and e.func.id == 'str' and len(e.args) == 1:
+        return untokenizes(e.args[0], f, prog, depth + 1)
+    if isinstance(e, ast.Name):
+        ds = _defs(f.node, e.id)
+        rs = {untokenizes(d, f, prog, depth + 1) for d in ds}
+        if ds and len(rs) == 1 and None not in rs:
+            return rs.pop()
+        return None
+    if isinstance(e, ast.Call) and isinstance(e.func, ast.Name) and len(e.args) == 1:
+        h = prog.functions.get((f.module.rel, e.func.id))
+        if h is not None and h is not f and h.params():
+            rets = [r.value for r in ast.walk(h.node) if isinstance(r, ast.Return)]
+            rs = {untokenizes(r, h, prog, depth + 1) for r in rets}
+            if rets and rs == {h.params()[0]}:
+                return unparse(e.args[0])
+    return None
 
 
 def run(prog, check):
     check.explanation = EXPLANATION
     check.not_decided = 'value equality of the renamed expression after untokenize (spacing / literal forms)'
     check.assumptions = ['tokenize yields every identifier occurrence as one NAME token']
-    utils_fns = [f for f in prog.all_functions() if f.cls is None and token_loops(f)]
-    replacers, listers = [], []
-    for f in utils_fns:
-        if any(isinstance(n, ast.Call) and call_name(n) == 'untokenize' for n in ast.walk(f.node)):
+    mod_fns = [f for f in prog.all_functions() if f.cls is None and '/deprecated/' not in f.module.rel]
+    sites = {}
+    for f in mod_fns:
+        ss = token_sites(f, prog)
+        if ss:
+            sites[f.key] = (f, ss)
+    replacers, listers, delegators = [], [], []
+    for f, ss in sites.values():
+        rets = [r.value for r in ast.walk(f.node) if isinstance(r, ast.Return) and r.value is not None]
+        if any(untokenizes(r, f, prog) is not None for r in rets) or any(
+                isinstance(n, ast.Call) and call_name(n) == 'untokenize' for n in ast.walk(f.node)):
             replacers.append(f)
         else:
             listers.append(f)
-    # a function that applies a token replacer once per entry of its mapping argument renames sequentially, not simultaneously
     rnames = {f.name for f in replacers}
-    for f in [x for x in prog.all_functions() if x.cls is None]:
-        if f in replacers:
+    # a function that hands its arguments to a token replacer as a one-entry mapping is a replacer by delegation;
+    # one that applies a replacer once per entry of its mapping argument renames sequentially, not simultaneously
+    for f in mod_fns:
+        if f in replacers or f in listers:
+            continue
+        rets = [r.value for r in ast.walk(f.node) if isinstance(r, ast.Return) and r.value is not None]
+        params = f.params()
+        if rets and all(isinstance(r, ast.Call) and call_name(r) in rnames for r in rets) and len(params) >= 2:
+            ok = True
+            for r in rets:
+                m = r.args[1] if len(r.args) > 1 else None
+                ok = ok and len(r.args) == 2 and unparse(r.args[0]) == params[0] and isinstance(m, ast.Dict) and len(m.keys) == 1 and \
+                    len(params) >= 3 and unparse(m.keys[0]) == params[1] and unparse(m.values[0]) == params[2]
+            check.saw(f)
+            check.ob('C13.R1', '%s::delegates-to-replacer' % f.key, ok, f.where,
+                     'renames by handing {target: replacement} to the lookup replacer' if ok else
+                     'delegates to a token replacer with other arguments than (text, {target: replacement})',
+                     "renaming x in 'x_1 + 2.0e3*ax'")
+            delegators.append(f)
             continue
         for loop in [n for n in ast.walk(f.node) if isinstance(n, ast.For)]:
             it = loop.iter
@@ -69,80 +365,86 @@ def run(prog, check):
                 check.ob('C13.R2', '%s::single-pass' % f.key, False, '%s:%d' % (f.module.rel, loop.lineno),
                          'the renamings of `%s` are applied one after another, each on the output of the previous one: a replacement that is '
                          'itself a key is renamed again' % src.id, "swap map {'x': 'y', 'y': 'x'}: a swap must swap")
-                replacers.append(f)
-    if len(replacers) < 2 or len(listers) < 1:
-        raise AnalysisError('token utilities not found: replacers=%s listers=%s' % (
-            [f.name for f in replacers], [f.name for f in listers]))
-    for f in replacers:
-        check.saw(f)
-        params = f.params()
-        if not token_loops(f):
+                delegators.append(f)
+    # the same for methods: a renaming applied once per entry of a mapping parameter is sequential
+    RENAMERS = rnames | {'replace_token', 'replace_token_from_lookup', 'ReplaceTokensFromLookup', '_ReplaceAliases'}
+    for f in prog.all_functions():
+        if f.cls is None or '/deprecated/' in f.module.rel:
             continue
-        for loop in token_loops(f):
-            tv = target_names(loop.target)
-            if len(tv) < 2:
-                raise AnalysisError('token loop of %s does not unpack the token tuple' % f.name)
-            typevar, valvar = tv[0], tv[1]
-            g = cfgmod.build(f)
-            # emissions
-            for node in g.stmt_nodes():
-                if node.kind != 'stmt' or loop not in node.loops:
+        fparams = f.params()
+        for loop in [n for n in ast.walk(f.node) if isinstance(n, ast.For)]:
+            it = loop.iter
+            src = it.func.value if (isinstance(it, ast.Call) and call_name(it) in ('items', 'keys') and isinstance(it.func, ast.Attribute)) else it
+            if not (isinstance(src, ast.Name) and src.id in fparams and src.id != 'self'):
+                continue
+            lv = set(target_names(loop.target))
+            for c in ast.walk(loop):
+                if isinstance(c, ast.Call) and call_name(c) in RENAMERS and any(
+                        isinstance(x, ast.Name) and x.id in lv for a_ in c.args for x in ast.walk(a_)):
+                    check.saw(f)
+                    check.ob('C13.R2', '%s::single-pass' % f.key, False, '%s:%d' % (f.module.rel, c.lineno),
+                             'the renamings of `%s` are applied one entry at a time, each on the output of the previous one: a replacement '
+                             'that is itself a key is renamed again' % src.id, "swap map {'x': 'y', 'y': 'x'}: a swap must swap")
+    if len(replacers) + len(delegators) < 2 or len(listers) < 1 or not replacers:
+        raise AnalysisError('token utilities not found: replacers=%s listers=%s' % (
+            [f.name for f in replacers + delegators], [f.name for f in listers]))
+    for f in replacers + listers:
+        check.saw(f)
+        for site in sites[f.key][1]:
+            if site.stream.impure:
+                check.ob('C13.R1', '%s::stream-of-own-text' % f.key, False, '%s:%d' % (f.module.rel, site.node.lineno),
+                         site.stream.impure, "'not x' after 'notx' has been tokenised; string literals with blanks")
+            else:
+                ok = site.stream.src in (f.params()[0], '?')
+                check.ob('C13.R1', '%s::stream-of-own-text' % f.key, ok, '%s:%d' % (f.module.rel, site.node.lineno),
+                         'the token stream is that of the text argument' if ok else
+                         'the token stream is taken from `%s`, not from the text argument' % site.stream.src, 'any renaming')
+    for f in replacers:
+        params = f.params()
+        for site in sites[f.key][1]:
+            for em, facts, line in site.emissions:
+                if not (isinstance(em, ast.Tuple) and len(em.elts) == 2):
+                    check.ob('C13.R1', '%s::emit-replacement(%s)' % (f.key, unparse(em)), False, '%s:%d' % (f.module.rel, line),
+                             'something else than a (type, text) pair is emitted', 'any renaming')
                     continue
-                for c in ast.walk(node.ast):
-                    if isinstance(c, ast.Call) and call_name(c) == 'append' and c.args and isinstance(c.args[0], ast.Tuple) \
-                            and len(c.args[0].elts) == 2:
-                        tnum, tval = c.args[0].elts
-                        original = isinstance(tval, ast.Name) and tval.id == valvar and isinstance(tnum, ast.Name) and tnum.id == typevar
-                        if original:
-                            check.ob('C13.R1', '%s::emit-original' % f.key, True, '%s:%d' % (f.module.rel, c.lineno),
-                                     'token emitted unchanged', '')
-                            continue
-                        # replacement emission: find the dominating test in the loop
-                        ok, why = False, 'replacement emitted without the NAME-and-exact-match guard'
-                        for t in g.nodes:
-                            if t.kind != 'test' or loop not in t.loops or not g.dominates(t, node):
-                                continue
-                            tgt_false = [b for b, l in g.succ[t.id] if l is False]
-                            hdr = [h for h in g.nodes if h.kind == 'for' and h.stmt is loop][0]
-                            if node.id in g.reach(tgt_false, avoid={hdr.id}, include_src=True):
-                                continue
-                            conj = t.ast.values if (isinstance(t.ast, ast.BoolOp) and isinstance(t.ast.op, ast.And)) else [t.ast]
-                            has_name = any(is_name_test(x, typevar) for x in conj)
-                            exact = None
-                            for x in conj:
-                                if isinstance(x, ast.Compare) and len(x.ops) == 1 and isinstance(x.left, ast.Name) and x.left.id == valvar:
-                                    if isinstance(x.ops[0], ast.Eq) and isinstance(x.comparators[0], ast.Name) and x.comparators[0].id in params:
-                                        exact = ('==', x.comparators[0].id)
-                                    elif isinstance(x.ops[0], ast.In) and isinstance(x.comparators[0], ast.Name) and x.comparators[0].id in params:
-                                        exact = ('in', x.comparators[0].id)
-                                elif isinstance(x, ast.Compare) and len(x.ops) == 1 and isinstance(x.ops[0], ast.In) and \
-                                        isinstance(x.comparators[0], ast.Name) and x.comparators[0].id == valvar:
-                                    exact = None      # `target in tokval`: substring test
-                            if has_name and exact:
-                                # the emitted value is the replacement for exactly this token
-                                if exact[0] == '==':
-                                    good_val = isinstance(tval, ast.Name) and tval.id in params and tval.id != exact[1]
-                                else:
-                                    good_val = isinstance(tval, ast.Subscript) and isinstance(tval.value, ast.Name) and \
-                                        tval.value.id == exact[1] and isinstance(tval.slice, ast.Name) and tval.slice.id == valvar
-                                good_type = unparse(tnum).split('.')[-1] == 'NAME' or (isinstance(tnum, ast.Name) and tnum.id == typevar)
-                                if good_val and good_type:
-                                    ok, why = True, 'replacement guarded by `%s`' % unparse(t.ast)
-                                else:
-                                    why = 'guard found but the emitted token is `%s`' % unparse(c.args[0])
-                            elif not has_name:
-                                why = 'guard `%s` does not test the token type for NAME' % unparse(t.ast)
-                            else:
-                                why = 'guard `%s` does not require an exact match of the token text' % unparse(t.ast)
-                        check.ob('C13.R1', '%s::emit-replacement(%s)' % (f.key, unparse(c.args[0])), ok,
-                                 '%s:%d' % (f.module.rel, c.lineno), why,
-                                 "renaming x in 'x_1 + 2.0e3*ax' (substring / number / string contents must stay)")
+                tnum, tval = em.elts
+                if unparse(tnum) == 'TOKTYPE' and unparse(tval) == 'TOKVAL':
+                    check.ob('C13.R1', '%s::emit-original' % f.key, True, '%s:%d' % (f.module.rel, line), 'token emitted unchanged', '')
+                    continue
+                has_name = any(is_name_fact(e, v) for e, v in facts)
+                exact = None
+                for e, v in facts:
+                    exact = exact or exact_fact(e, v, params)
+                ok, why = False, 'replacement emitted without the NAME-and-exact-match guard'
+                if has_name and exact:
+                    if exact[0] == '==':
+                        good_val = isinstance(tval, ast.Name) and tval.id in params and tval.id != exact[1]
+                    else:
+                        good_val = isinstance(tval, ast.Subscript) and isinstance(tval.value, ast.Name) and \
+                            tval.value.id == exact[1] and unparse(tval.slice) == 'TOKVAL'
+                    good_type = unparse(tnum).split('.')[-1] == 'NAME' or unparse(tnum) == 'TOKTYPE'
+                    if good_val and good_type:
+                        ok, why = True, 'replacement guarded by NAME type and exact match (%s %s)' % exact
+                    else:
+                        why = 'guard found but the emitted token is `%s`' % unparse(em)
+                elif facts and not has_name:
+                    why = 'guard `%s` does not test the token type for NAME' % ' and '.join(
+                        ('' if v else 'not ') + unparse(e) for e, v in facts)
+                elif facts:
+                    why = 'guard `%s` does not require an exact match of the token text' % ' and '.join(
+                        ('' if v else 'not ') + unparse(e) for e, v in facts)
+                check.ob('C13.R1', '%s::emit-replacement(%s)' % (f.key, unparse(em)), ok, '%s:%d' % (f.module.rel, line), why,
+                         "renaming x in 'x_1 + 2.0e3*ax' (substring / number / string contents must stay)")
+            check.ob('C13.R1', '%s::every-token-emitted' % f.key, site.every_token, '%s:%d' % (f.module.rel, site.node.lineno),
+                     'every token of the stream is emitted exactly once per pass' if site.every_token else
+                     'a token can be dropped from (or emitted twice into) the rewritten text', 'operators and numbers around a renamed name')
         # ---- R2 -------------------------------------------------------------------------------------
         loops = [n for n in ast.walk(f.node) if isinstance(n, (ast.While,))]
         rec = [n for n in ast.walk(f.node) if isinstance(n, ast.Call) and call_name(n) == f.name]
-        nested = [l for l in token_loops(f) if any(isinstance(x, (ast.For, ast.While)) for st in l.body for x in ast.walk(st))]
+        nested = [st for st in sites[f.key][1] if st.nested]
         rets = [r for r in ast.walk(f.node) if isinstance(r, ast.Return) and r.value is not None]
-        direct = bool(rets) and all(any(isinstance(x, ast.Call) and call_name(x) == 'untokenize' for x in ast.walk(r.value)) for r in rets)
+        collectors = {st.collector for st in sites[f.key][1]}
+        direct = bool(rets) and all(untokenizes(r.value, f, prog) in collectors for r in rets)
         # the lookup is consulted with the *original* token only (no chained re-lookup)
         relook = False
         for n in ast.walk(f.node):
@@ -151,35 +453,26 @@ def run(prog, check):
                 relook = True
         ok = not loops and not rec and not nested and direct and not relook
         check.ob('C13.R2', '%s::single-pass' % f.key, ok, f.where,
-                 'one loop over the token stream, result returned through untokenize' if ok else
-                 'replacement output is re-examined (while loop / recursion / nested pass / chained lookup)',
+                 'one pass over the token stream, result returned through untokenize' if ok else
+                 'replacement output is re-examined (while loop / recursion / nested pass / chained lookup) or not returned through untokenize',
                  "swap map {'x': 'y', 'y': 'x'}: a swap must swap")
     # ---- R4 ----------------------------------------------------------------------------------------
     for f in listers:
-        check.saw(f)
-        for loop in token_loops(f):
-            tv = target_names(loop.target)
-            typevar, valvar = tv[0], tv[1]
-            apps = [c for c in ast.walk(loop) if isinstance(c, ast.Call) and call_name(c) == 'append']
-            ok = bool(apps)
-            for c in apps:
-                p = getattr(c, '_parent', None)
-                guard = None
-                while p is not None and p is not loop:
-                    if isinstance(p, ast.If):
-                        guard = p
-                        break
-                    p = getattr(p, '_parent', None)
-                if guard is None or not is_name_test(guard.test, typevar) or not (
-                        isinstance(c.args[0], ast.Name) and c.args[0].id == valvar):
+        for site in sites[f.key][1]:
+            ok = bool(site.emissions)
+            for em, facts, line in site.emissions:
+                if not (unparse(em) == 'TOKVAL' and any(is_name_fact(e, v) for e, v in facts)):
                     ok = False
-            check.ob('C13.R4', '%s::name-tokens-only' % f.key, ok, '%s:%d' % (f.module.rel, loop.lineno),
-                     'appends the token text under the NAME test only' if ok else 'appends something else than NAME token texts',
+            check.ob('C13.R4', '%s::name-tokens-only' % f.key, ok, '%s:%d' % (f.module.rel, site.node.lineno),
+                     'collects the token text under the NAME test only' if ok else 'collects something else than NAME token texts',
                      "list_tokens('x + 2*y(k-1)') must be ['x', 'y', 'k']")
         rets = [r for r in ast.walk(f.node) if isinstance(r, ast.Return) and r.value is not None]
         post = any(isinstance(n, ast.Call) and call_name(n) in ('sort', 'sorted', 'set', 'reverse', 'reversed') for n in ast.walk(f.node))
-        check.ob('C13.R4', '%s::order-preserved' % f.key, not post and all(isinstance(r.value, ast.Name) for r in rets), f.where,
-                 'the list is returned as collected' if not post else 'the list is re-ordered / de-duplicated', 'x + y + x')
+        collectors = {st.collector for st in sites[f.key][1]}
+        plain = all((isinstance(r.value, ast.Name) and r.value.id in collectors) or
+                    any(r.value is st.node for st in sites[f.key][1]) for r in rets)
+        check.ob('C13.R4', '%s::order-preserved' % f.key, not post and plain, f.where,
+                 'the list is returned as collected' if (not post and plain) else 'the list is re-ordered / de-duplicated / post-processed', 'x + y + x')
     # ---- R3 ----------------------------------------------------------------------------------------
     n3 = 0
     for f in prog.all_functions():
@@ -192,28 +485,20 @@ def run(prog, check):
                 check.ob('C13.R3', '%s::replace(%s)' % (f.key, unparse(a)), ok, '%s:%d' % (f.module.rel, n.lineno),
                          'classified as ' + cls_, 'a variable whose name is a substring of another variable')
     # ---- R5: the callers that rename variables go through the utilities for every kind of term --------------
-    T = prog.classes.get('Term')
-    rt = T.methods.get('ReplaceTokensFromLookup') if T else None
-    if rt is None:
-        raise AnalysisError('Term.ReplaceTokensFromLookup not found')
+    from ._common import term_rename
+    rt, stores, all_paths = term_rename(prog)
     check.saw(rt)
-    g = cfgmod.build(rt)
-    stores = [n for n in g.stmt_nodes() if n.kind == 'stmt' and isinstance(n.ast, ast.Assign) and
-              isinstance(n.ast.targets[0], ast.Attribute) and n.ast.targets[0].attr == 'Term']
-    for n in stores:
-        v = n.ast.value
-        ok = isinstance(v, ast.Call) and call_name(v) in ('replace_token_from_lookup', 'replace_token')
-        branch = 'opaque terms' if any(isinstance(t.ast, ast.Attribute) and t.ast.attr == 'IsBlob' and g.dominates(t, n) and
-                                       n.id in g.reach([b for b, l in g.succ[t.id] if l is True], include_src=True)
-                                       for t in g.nodes if t.kind == 'test') else 'simple terms'
-        check.ob('C13.R5', '%s::renames-through-utility(%s)' % (rt.key, branch), ok, '%s:%d' % (rt.module.rel, n.line),
-                 'term text is renamed with the token-level utility' if ok else
-                 'term text is renamed by `%s`: whole-text lookup misses names inside products / quotients' % unparse(v)[:70],
+    for n, ok, txt in stores:
+        check.ob('C13.R5', '%s::renames-through-utility(%s)' % (rt.key, txt[:50]), ok, '%s:%d' % (rt.module.rel, n.line),
+                 'term text is renamed with the token-level utility applied to the current text and the full lookup' if ok else
+                 'term text is renamed by `%s`: anything but the token-level utility on the whole lookup misses names inside '
+                 'products / quotients or renames sequentially' % txt[:70],
                  "a simple term 'r*B' whose factor r is to be renamed")
-    check.ob('C13.R5', '%s::both-term-kinds-renamed' % rt.key, len(stores) >= 2, rt.where,
-             'opaque and simple terms are both renamed' if len(stores) >= 2 else 'one kind of term is not renamed at all', '')
-    check.floor('C13.R5', 3)
-    check.floor('C13.R1', 6)
+    check.ob('C13.R5', '%s::both-term-kinds-renamed' % rt.key, all_paths, rt.where,
+             'every normal return of the method has renamed the term text (opaque and simple terms alike)' if all_paths else
+             'a kind of term is returned without being renamed', 'an opaque term and a simple term holding the same name')
+    check.floor('C13.R5', 2)
+    check.floor('C13.R1', 5)
     check.floor('C13.R2', 2)
     check.floor('C13.R3', 25)
     check.floor('C13.R4', 2)
